@@ -2,7 +2,8 @@ import BarterModel.Driver.Common
 import BarterModel.Model.Stale
 /-!
 Line-protocol driver for C09. Ops: `init n` | `bal a t total free` | `full (a t total free)*`
-| `trade i t price` | `l1 i te tl bp ba ap aa` | `ord i c id t filled` (open report, quantity 10).
+| `trade i t price` | `l1 i te tl bp ba ap aa` | `ord i c id t filled` (open report, quantity 10)
+| `cancel i c` (a cancel request for the order is sent: `record_in_flight_cancel`).
 -/
 namespace BarterModel.Driver.C09
 open BarterModel.Driver BarterModel.Stale BarterModel.Orders
@@ -34,8 +35,9 @@ def obs (s : St) : List String :=
   ((s.orders.zipIdx.map fun (m, i) =>
     cids.map fun c =>
       match (lookup m c).map (·.state) with
-      | some (.opn o) => s!"ord{i}_{c} {fmtOpen o}"
-      | some _ => s!"ord{i}_{c} other"
+      | some st => (match st.openMeta with
+        | some o => s!"ord{i}_{c} {fmtOpen o}"
+        | none => s!"ord{i}_{c} F")
       | none => s!"ord{i}_{c} none").flatten)
 
 inductive POp where
@@ -43,6 +45,7 @@ inductive POp where
   | trade (i : Nat) (t : Int) (p : Rat)
   | l1 (i : Nat) (te : Int) (x : L1)
   | ord (i c : Nat) (o : Open)
+  | cancel (i c : Nat)
 
 def parseBalItems : List String → Option (List (Nat × Msg Bal))
   | [] => some []
@@ -67,6 +70,10 @@ def parseOp : List String → Option POp
     match i.toNat?, c.toNat?, id.toNat?, t.toInt?, parseRat? f with
     | some i, some c, some id, some t, some f => some (.ord i c ⟨id, t, f⟩)
     | _, _, _, _, _ => none
+  | ["cancel", i, c] =>
+    match i.toNat?, c.toNat? with
+    | some i, some c => some (.cancel i c)
+    | _, _ => none
   | _ => none
 
 def POp.inRange (n : Nat) : POp → Bool
@@ -74,6 +81,7 @@ def POp.inRange (n : Nat) : POp → Bool
   | .trade i _ _ => i < n
   | .l1 i _ _ => i < n
   | .ord i _ _ => i < n
+  | .cancel i _ => i < n
 
 def model : Drv St where
   init := ⟨Eng.init 0 0, [], 0⟩
@@ -93,6 +101,7 @@ def model : Drv St where
           | .trade i t p => { s with eng := s.eng.trade i t p }
           | .l1 i te x => { s with eng := s.eng.bookL1 i te x }
           | .ord i c o => { s with orders := s.orders.apply i (.snapshot ⟨c, 10, 100, .active (.opn o), 0⟩) }
+          | .cancel i c => { s with orders := s.orders.apply i (.recCancel c) }
         (s', obs s')
 
 /-- spec state: the delivered messages per item, in delivery order -/
@@ -148,6 +157,8 @@ def spec : Drv SpecSt where
             if x.tl == te then { s with l1s := pushAt s.l1s i (te, x) }
             else { s with l1Poisoned := s.l1Poisoned.set i true }
           | .ord i c o => { s with ords := pushAt s.ords i (c, (o.t, o)) }
+          -- a cancel request sent (once or repeatedly) delivers nothing from the exchange
+          | .cancel _ _ => s
         (s', specObs s')
 
 end BarterModel.Driver.C09
